@@ -12,16 +12,18 @@ WT=/tmp/wt-confirm-$$
 git -C /repo worktree add -q --detach $WT HEAD || exit 2
 trap 'git -C /repo worktree remove --force $WT >/dev/null 2>&1' EXIT
 place=$(grep -m1 -o 'place in: *[^ ]*' "$SD/demo_test.go" | sed 's/place in: *//')
+RACE=""
+grep -q -- "-race" "$SD/meta.json" 2>/dev/null && RACE="-race"
 [ -z "$place" ] && { echo "SEED $SD: no 'place in' line"; exit 2; }
 cp "$SD/demo_test.go" "$WT/$place/zz_seed_demo_test.go"
 cd $WT
 run=$(grep -o '^func Test[A-Za-z0-9_]*' $place/zz_seed_demo_test.go | sed 's/func //' | paste -sd'|')
-base=$(go test -vet=off -count=1 -timeout 120s -run "^($run)\$" ./$place 2>&1 | tail -3)
+base=$(go test $RACE -vet=off -count=1 -timeout 120s -run "^($run)\$" ./$place 2>&1 | tail -3)
 echo "$base" | grep -q "^ok" && pass_without=yes || pass_without=no
 git apply "$SD/patch.diff" || { echo "SEED $SD: patch does not apply"; exit 2; }
 go build ./... >/dev/null 2>&1 && builds=yes || builds=no
-with=$(go test -vet=off -count=1 -timeout 120s -run "^($run)\$" ./$place 2>&1 | tail -5)
-echo "$with" | grep -q "FAIL" && fails_with=yes || fails_with=no
+with=$(go test $RACE -vet=off -count=1 -timeout 120s -run "^($run)\$" ./$place 2>&1 | tail -5)
+echo "$with" | grep -q "FAIL\|DATA RACE" && fails_with=yes || fails_with=no
 rm $place/zz_seed_demo_test.go
 pkgs=$(git diff --name-only | xargs -n1 dirname | sort -u | sed 's#^#./#' | paste -sd' ')
 suite=$(go test -vet=off -count=1 -timeout 600s $pkgs 2>&1 | tail -3)
